@@ -72,7 +72,11 @@ func FuzzThriftBytes(f *testing.F) {
 		data := g.data
 		for _, native := range []bool{false, true} {
 			p := thrift.BinaryProtocol{Buf: data}
-			_ = p.Skip(thrift.STRUCT, native)
+			if native {
+				_ = p.SkipNative(thrift.STRUCT, thrift.MaxSkipDepth)
+			} else {
+				_ = p.SkipGo(thrift.STRUCT, thrift.MaxSkipDepth)
+			}
 			if p.Read > len(data) {
 				t.Fatalf("skip cursor %d beyond the input of %d bytes", p.Read, len(data))
 			}
